@@ -627,6 +627,7 @@ func checkC08(c *Ctx) {
 	c08StaleConnection(c)
 	c08QueuedEvents(c)
 	c08EventInFlight(c)
+	eventDuringFlush(c, "C08")
 	c03Rekey(c) // a second pair-verify on an encrypted connection: the answer under the old keys, everything after it under the new ones
 	c.SetRule("one case = one schedule of 2..6 concurrent Connection.Write calls on a real hap.Connection (forced: enumerated " +
 		"choice sequences over the stop points before-Write / in-Encrypt / in-socket-write; free: Gosched/sleep noise, optional " +
